@@ -31,7 +31,9 @@ def enumerate_functions(rep, tier, impl):
         for arity in (1, 2):
             tuples = list(itertools.product(range(len(POOL)), repeat=arity))
             if arity == 2 and tier != "thorough":
-                tuples = [t for k, t in enumerate(tuples) if (k * 7 + len(f)) % 5 == 0]
+                # a fifth of the pairs, and every pair of two containers (an argument can only be changed if it is one; the other may select what)
+                cont = {i for i, v in enumerate(POOL) if v[0] in "[<"}
+                tuples = [t for k, t in enumerate(tuples) if (k * 7 + len(f)) % 5 == 0 or (t[0] in cont and t[1] in cont)]
             for t in tuples:
                 args = ", ".join("a%d" % i for i in range(arity))
                 defs = "; ".join("def a%d = %s" % (i, POOL[j]) for i, j in enumerate(t))
